@@ -38,16 +38,21 @@ fn main() {
         let rep = vcore::run_engine(p[0], &bytes, &opts);
         let first = rep
             .violations
-            .first()
+            .iter()
             .map(|v| format!("{}|[{}] {}", v.props.join("+"), v.rule, v.msg.replace('\n', " ")))
-            .unwrap_or_default();
+            .collect::<Vec<_>>()
+            .join(" ;; ");
         let _ = writeln!(
             out,
             "{:016x} {} {} {} {}",
             rep.trace_hash,
             rep.events,
             rep.violations.len(),
-            if rep.classes.is_empty() { "-".to_string() } else { rep.classes.join(",") },
+            {
+                let mut c: Vec<String> = rep.classes.iter().map(|x| x.to_string()).collect();
+                c.extend(rep.nontrivial.iter().map(|p| format!("nt:{}", p)));
+                if c.is_empty() { "-".to_string() } else { c.join(",") }
+            },
             first
         );
         if opts.trace {
